@@ -1,6 +1,7 @@
 use ark_ec::{AffineRepr, CurveGroup, Group, ScalarMul, VariableBaseMSM};
 use ark_serialize::Valid;
 use ark_std::vec::Vec;
+use core::convert::TryFrom;
 
 use crate::{
     ark_curve::{edwards::EdwardsAffine, Decaf377EdwardsConfig, EdwardsProjective},
@@ -120,7 +121,10 @@ impl AffineRepr for AffinePoint {
     }
 
     fn from_random_bytes(bytes: &[u8]) -> Option<Self> {
-        EdwardsAffine::from_random_bytes(bytes).map(|inner| AffinePoint { inner })
+        // An arbitrary curve point is not in general a valid decaf377 element
+        // (the curve has cofactor 4), so only accept what decodes as one, as
+        // the samplers in `rand.rs` do.
+        Element::try_from(bytes).ok().map(Into::into)
     }
 
     fn mul_bigint(&self, other: impl AsRef<[u64]>) -> Self::Group {
